@@ -25,6 +25,9 @@ CLASSES = ["S@plain", "G@array", "S@struct", "E@cbuffer", "Eo@texture", "E@texar
 def nontrivial(req, obs):
     # at least two calls between generated functions and one function that receives an implicit parameter
     f = req.split("\t")
+    if f[0] == "C02.dup":
+        # the module contains a cast to a struct and the exporter decided about it
+        return len(f) > 2 and f[2] != "-" and obs.startswith(("casts ", "diagnostic "))
     if f[0] == "C02.vex":
         return obs.startswith("vast ") and "(" in obs[5:40]
     if f[0] == "C02.vfn":
@@ -40,7 +43,7 @@ def nontrivial(req, obs):
 
 
 def finding_key(req, obs, detail):
-    if req.startswith(("C02.gen\t", "C02.vfn\t", "C02.vex\t")) and not obs and not detail:
+    if req.startswith(("C02.gen\t", "C02.vfn\t", "C02.vex\t", "C02.dup\t")) and not obs and not detail:
         # probe of vlib.shrink: failures of the semantic stream are keyed by their input, so a smaller failing input is welcome
         return req
     d = (detail or "")[5:]
